@@ -145,32 +145,60 @@ def r2_compare(res, facts):
 
 def r3_caches(res, facts):
     r = res.rule('C16-R3', 'sort-key caches are indexed by the node\'s original position (m_position), and the scratch vector pairs each node with its position in input order', floor=6)
+
+    def aliases(a):
+        """local variables that are plain names for an expression: {id: initialiser} (references and const locals initialised once)"""
+        out = {}
+        for x in walk(a['body']):
+            if x.get('k') == 'Decl':
+                for v in x.get('vars', []):
+                    if v.get('init') is not None:
+                        out[v['id']] = v['init']
+        return out
+
+    def resolve(e, al, depth=0):
+        e = strip_casts(e)
+        while e is not None and e.get('k') == 'Ref' and e.get('d') == 'local' and e.get('id') in al and depth < 6:
+            e = strip_casts(al[e['id']]); depth += 1
+        return e
     for q in ('NodeSorter::NodeSortKeyCompare::getNumberResult', 'NodeSorter::NodeSortKeyCompare::getStringResult'):
         for a in facts.asts(q):
             n = 0
+            al = aliases(a)
             for x in walk(a['body']):
                 if x['k'] == 'OpCall' and x['op'] == '[]' and len(x['args']) == 2:
-                    base = strip_casts(x['args'][0])
-                    if base.get('k') == 'OpCall' and base['op'] == '[]':
+                    base = resolve(x['args'][0], al)
+                    if base is not None and base.get('k') == 'OpCall' and base['op'] == '[]':
                         n += 1
-                        idx = pp(strip_casts(x['args'][1]))
+                        ix = resolve(x['args'][1], al)
+                        idx = pp(ix)
                         site = '%s: cache slot index' % q.split('::')[-1]
                         if idx.endswith('m_position'):
                             r.ok(site, idx)
-                        else:
+                        elif ix is not None and ix.get('k') == 'Ref' and ix.get('d') in ('local', 'param'):
                             r.violation(site, 'cached key value addressed by %s, not by the node\'s original position: values get attached to other nodes as the sort permutes them' % idx, common.file_line(a, x))
+                        else:
+                            res.broken.append('C16-R3: %s addresses the cache by %s, a form this rule cannot relate to m_position (C16-R6 decides the caches by value)' % (q, idx[:60]))
+                            r.instances += 1
             if n == 0:
-                r.violation(q, 'no cache access found', common.file_line(a))
+                res.broken.append('C16-R3: no two-level cache access recognised in %s (C16-R6 decides the caches by value)' % q)
     for a in facts.asts('NodeSorter::sort'):
         if len(a['params']) < 2:
             continue
         for c in calls(a['body']):
             if c.get('n') == 'push_back' and 'm_scratchVector' in pp(c.get('obj')):
-                txt = pp(c['args'][0])
-                if 'item(i)' in txt and txt.rstrip(')').endswith('i'):
-                    r.ok('NodeSorter::sort pairs item(i) with position i')
+                entry = strip_casts(c['args'][0])
+                eargs = [strip_casts(y) for y in (entry.get('args') or [])] if entry is not None and entry.get('k') == 'Ctor' else []
+                while len(eargs) == 1 and eargs[0] is not None and eargs[0].get('k') == 'Ctor':
+                    eargs = [strip_casts(y) for y in (eargs[0].get('args') or [])]
+                if len(eargs) == 2 and eargs[0].get('k') == 'MCall' and eargs[0].get('n') == 'item' and len(eargs[0].get('args', [])) == 1:
+                    if pp(strip_casts(eargs[0]['args'][0])) == pp(eargs[1]):
+                        r.ok('NodeSorter::sort pairs item(i) with position i')
+                    else:
+                        r.violation('NodeSorter::sort scratch entries', 'scratch entry %s does not pair node i with position i' % pp(c['args'][0]), common.file_line(a, c))
                 else:
-                    r.violation('NodeSorter::sort scratch entries', 'scratch entry %s does not pair node i with position i' % txt, common.file_line(a, c))
+                    res.broken.append('C16-R3: the scratch entry %s is not of the form VectorEntry(list.item(i), i) (C16-R7 decides the whole sort by value)' % pp(c['args'][0])[:80])
+                    r.instances += 1
     return r
 
 
